@@ -106,6 +106,26 @@ def rule_args(ctx: Ctx, repo: Repo) -> None:
                               construct=f"{lab} position {idx} annotated={a} traced={t}: got {_sh(got)}, expected {_sh(want)}")
                     ctx.check(p.fields["default"] == EMPTY and p.fields["kind"] == SM.kind("POSITIONAL_OR_KEYWORD"), "R-C13.1", fi.fq,
                               "name, kind and default of a parameter are not changed", construct=f"{lab} position {idx}: {p}")
+    # a function of a class whose FIRST parameter is not positional (`def lookup(*, key)`, `def collect(*items, flag)`): it has no
+    # receiver parameter in its list at all - position 0 is an ordinary parameter
+    for strategy in (REPLICATE, IGNORE, OMIT):
+        for first_kind in ("KEYWORD_ONLY",):
+            for annotated in (False, True):
+                params = [param("key", A_("key") if annotated else EMPTY, EMPTY, first_kind), param("other", EMPTY, EMPTY, "KEYWORD_ONLY")]
+                arg_types = R("dict", items=((K("key"), T_("key")), (K("other"), T_("other"))))
+                res = StubScenario(repo, "update_signature_args").result({ps[0]: sig(params, EMPTY), ps[1]: arg_types, ps[2]: K(True), ps[3]: strategy})
+                new = res.fields["parameters"] if isinstance(res, R) and res.kind == "sig" else None
+                items = list(new.fields["items"]) if isinstance(new, R) and new.kind == "list" else ([v for _, v in new.fields["items"]] if isinstance(new, R) and new.kind == "dict" else
+                                                                                                   (list(new.v) if isinstance(new, K) and isinstance(new.v, tuple) else None))
+                rows += 1
+                if not items:
+                    ctx.violate("R-C13.1", fi.fq, f"{strategy.name.split('.')[-1]} keyword-only first parameter: {str(res)[:100]}", "update_signature_args does not return the parameters")
+                    continue
+                want = expected_arg(strategy, annotated, True, False, "key")
+                got = items[0].fields["annotation"]
+                ctx.check(got == want, "R-C13.1", fi.fq,
+                          "the receiver is the first POSITIONAL parameter of a method: a keyword-only parameter at position 0 of a class's function is an ordinary parameter and receives the traced type",
+                          construct=f"{strategy.name.split('.')[-1]} has_self=True, `def lookup(*, key{': A' if annotated else ''}, other)`: key got {_sh(got)}, expected {_sh(want)}")
     ctx.floor("R-C13.1", "decision-table rows of update_signature_args", rows, 100)
     d = fi.defaults().get(ps[3])
     ctx.check(d is not None and dotted(d) == "ExistingAnnotationStrategy.REPLICATE", "R-C13.1", fi.fq, "the default strategy is REPLICATE", construct=norm(d))
